@@ -207,6 +207,10 @@ def shard_main(ctx):
     try:
         ctx.run_hypothesis([gen.charts(pml_opts(), 'promela'), gen.event_histories(5)], lambda ch, evs: check_case(ctx, ch, evs),
                            p["charts"] // ctx.nshards + 1, case_repr)
+        cp = gen.completion_profile()
+        cp.in_conds = False
+        ctx.run_hypothesis([gen.charts(cp, 'promela'), gen.event_histories(4, ['a', 'b'])], lambda ch, evs: check_case(ctx, ch, evs),
+                           p["charts"] // (3 * ctx.nshards) + 1, case_repr, name="completion")
     finally:
         shutil.rmtree(os.path.join(WORK, "scratch", "c06_%d" % os.getpid()), ignore_errors=True)
 
